@@ -187,7 +187,7 @@ def regex_case(ctx, cls_name, pname, pattern, repl, text, fc_spec, res_spec, idx
         diffs.append((list(upd), create_diff(lines, list(upd))))
     except Exception:  # noqa  (results=None on the SAST class)
         pass
-    meta = {"class": cls_name, "pattern": pname, "text": text, "fc_results": fc_spec, "results": res_spec,
+    meta = {"pipeline": cls_name, "pattern": pname, "text": text, "fc_results": fc_spec, "results": res_spec,
             "real": _jsonable(real), "dry": _jsonable(dry), "raised": [exc_r, exc_d]}
 
     def c_results(spec):
@@ -305,7 +305,7 @@ def run_regex(ctx):
     bad = core.eval_bad_indices(ctx, "c19_regex", IMPORTS, "regex_case", terms, checks, chunk=300)
     for i in bad["regex_model_ok"]:
         m = metas[i]
-        ctx.mismatch(f"{m['class']}.apply vs Model.RegexPipe", f"apply() differs from the model: pattern={m['pattern']} text={m['text']!r} "
+        ctx.mismatch(f"{m['pipeline']}.apply vs Model.RegexPipe", f"apply() differs from the model: pattern={m['pattern']} text={m['text']!r} "
                      f"fc_results={m['fc_results']} results={m['results']} observed={m['real']}", {"half": "regex", **m})
     what = {
         "regex_spec_file_ok": ("kf_regex_untargeted_changed", "file content is not 'targeted lines substituted, every other line identical, dry-run untouched'"),
@@ -316,7 +316,7 @@ def run_regex(ctx):
     for chk, (cls, text) in what.items():
         for i in bad[chk]:
             m = metas[i]
-            ctx.violation(cls, f"{m['class']}: {text}; pattern={m['pattern']} text={m['text']!r} fc_results={m['fc_results']} "
+            ctx.violation(cls, f"{m['pipeline']}: {text}; pattern={m['pattern']} text={m['text']!r} fc_results={m['fc_results']} "
                           f"results={m['results']} observed(real)={m['real']} observed(dry)={m['dry']}", {"half": "regex", **m})
 
     # fault stream: undecodable bytes (DESIGN §6 #21, belongs to C10): apply() has no failure handling
@@ -356,7 +356,7 @@ def replay(ctx, body):
     _, pat, repl = pats[body["pattern"]]
     fcs, rs = _spec(body["fc_results"]), _spec(body["results"])
     for dry in (False, True):
-        o, exc = run_regex_once(ctx, body["class"], pat, repl, body["text"].encode(), fcs, rs, dry, "replay")
+        o, exc = run_regex_once(ctx, body["pipeline"], pat, repl, body["text"].encode(), fcs, rs, dry, "replay")
         print(f"dry_run={dry}: raised={exc} observed now: {_jsonable(o)}")
     print("recorded (real):", body.get("real"))
     print("expected: one change per edited line, lineNumber 1-based, findings = those whose [start.line, end.line] contains it; "
